@@ -130,7 +130,6 @@ def check(rep):
     ]
     if not quick:
         specs.append(dict(name="delivery: 2 events, interval 0.5", module=mod, harness="h_delivery", args=(2, 0.5), steps=30))
-        specs.append(dict(name="stop race: 3 events, interval 0.5", module=mod, harness="h_stop_race", args=(3, 0.5), steps=40))
     for sp in specs:
         sp.update(jobs=5, query_timeout_s=900 if quick else 3000, loop_bound=400)
     res = run_sessions(specs, workers=len(specs))
